@@ -290,6 +290,54 @@ theorem mapOut_peekNext {o : Ops σ β} (hp : PeekNext o) (f : β → γ) : Peek
 
 end
 
+/-! ## every position reached by dropping a prefix answers for its own remaining elements
+
+In a family of states closed under `next` in which every state is coherent with the list it unfolds
+to, the state reached from `s` by dropping `k` elements (`s drop k`, `s[k:]`, `tail`) is coherent
+with `l.drop k`; in particular its `len` is `len s - k` (and 0 once exhausted), whatever was observed
+on `s` before — the model has no place where an earlier observation could be remembered. -/
+theorem family_dropN {σ β : Type} {o : Ops σ β} (F : σ → Prop)
+    (hclosed : ∀ s v s', F s → o.next s = some (v, s') → F s') :
+    ∀ k s, F s → F (dropN o.next k s) := by
+  intro k
+  induction k with
+  | zero => intro s h; exact h
+  | succ k ih =>
+    intro s h
+    simp only [dropN]
+    cases hn : o.next s with
+    | none => exact h
+    | some p => exact ih p.2 (hclosed s p.1 p.2 h hn)
+
+theorem coherent_drop_of_family {σ β : Type} {o : Ops σ β} (F : σ → Prop)
+    (hclosed : ∀ s v s', F s → o.next s = some (v, s') → F s')
+    (hcoh : ∀ s, F s → ∃ l, Coherent o s l) {s : σ} {l : List β} (hF : F s)
+    (h : Coherent o s l) (k : Nat) :
+    Coherent o (dropN o.next k s) (l.drop k) ∧
+      o.len (dropN o.next k s) = .ok (some (l.length - k)) := by
+  obtain ⟨l', h'⟩ := hcoh _ (family_dropN F hclosed k s hF)
+  have e : l' = l.drop k := Unfolds.functional h'.unfolds (dropN_unfolds h.unfolds k)
+  subst e
+  exact ⟨h', by rw [h'.len, List.length_drop]⟩
+
+/-- the same through the consumer: `s[k:]` is a stream whose `len` is `len s - k` -/
+theorem slice_tail_len {σ β : Type} {o : Ops σ β} (F : σ → Prop)
+    (hclosed : ∀ s v s', F s → o.next s = some (v, s') → F s')
+    (hcoh : ∀ s, F s → ∃ l, Coherent o s l) {s : σ} {l : List β} (hF : F s)
+    (h : Coherent o s l) (k : Nat)
+    (hslice : o.slice s (some (k : Int)) none = .ok (.strm (dropN o.next k s))) :
+    ∃ t, o.slice s (some (k : Int)) none = .ok (.strm t) ∧ o.len t = .ok (some (l.length - k)) :=
+  ⟨_, hslice, (coherent_drop_of_family F hclosed hcoh hF h k).2⟩
+
+/-- for the types that use the default `pythonic_slice`, `s[k:]` *is* the dropped state -/
+theorem build_slice_tail {σ β : Type} (next : σ → Option (β × σ)) (peek : σ → Option β)
+    (bound : σ → Option Nat) (len : σ → R (Option Nat)) (force : σ → R (List β)) (s : σ) (k : Nat) :
+    (Ops.build next peek bound len force).slice s (some (k : Int)) none = .ok (.strm (dropN next k s)) := by
+  show defaultSlice next force s (some (k : Int)) none = _
+  unfold defaultSlice
+  have : (0 : Int) ≤ (k : Int) := by omega
+  simp [this]
+
 /-! ## the finite stream types are hereditarily finite, and their `peek` is their `next` -/
 
 theorem range_peekNext : PeekNext Range.ops := by
@@ -428,5 +476,60 @@ theorem comb_unfoldsB {α : Type} (c : Idx α) : ∃ l, UnfoldsB Comb.ops c l :=
   refine ⟨CombT.meas s, ?_, hlen⟩
   obtain ⟨base, idx⟩ := s
   cases idx <;> rfl
+
+/-- **Combinations, every derived position**: after any observation of `s`, `s drop k` has
+`len = len s - k` (the model's `len` is a function of the state alone) -/
+theorem comb_drop_len {α : Type} (c : Idx α) (l : List (List α)) (h : Coherent Comb.ops c l) (k : Nat) :
+    Coherent Comb.ops (dropN Comb.next k c) (l.drop k) ∧
+      Comb.ops.len (dropN Comb.next k c) = .ok (some (l.length - k)) :=
+  coherent_drop_of_family (o := Comb.ops) (fun _ => True) (fun _ _ _ _ _ => trivial)
+    (fun s _ => comb_coherent s) trivial h k
+
+theorem comb_slice_tail_len {α : Type} (c : Idx α) (l : List (List α)) (h : Coherent Comb.ops c l) (k : Nat) :
+    ∃ t, Comb.ops.slice c (some (k : Int)) none = .ok (.strm t) ∧
+      Comb.ops.len t = .ok (some (l.length - k)) :=
+  ⟨_, build_slice_tail _ _ _ _ _ c k, (comb_drop_len c l h k).2⟩
+
+theorem wrapped_drop_len {α : Type} (base : List α) (pos k : Nat) (hp : pos ≤ base.length) :
+    Wrapped.ops.len (dropN Wrapped.next k (⟨base, pos⟩ : Wrapped α)) =
+      .ok (some ((base.drop pos).length - k)) := by
+  refine (coherent_drop_of_family (o := Wrapped.ops) (fun w => w.pos ≤ w.base.length) ?_ ?_
+    (s := ⟨base, pos⟩) hp (wrapped_coherent base pos hp) k).2
+  · intro w v w' hw hn
+    have h' : Wrapped.next w = some (v, w') := hn
+    unfold Wrapped.next at h'
+    split at h'
+    · cases h'
+    · cases hg : w.base[w.pos]? with
+      | none => simp [hg] at h'
+      | some x =>
+        simp only [hg, Option.some.injEq, Prod.mk.injEq] at h'
+        obtain ⟨_, rfl⟩ := h'
+        simp only
+        omega
+  · intro w hw
+    obtain ⟨b, p⟩ := w
+    exact ⟨_, wrapped_coherent b p hw⟩
+
+theorem subseq_drop_len {α : Type} (m : Mask α) (hn : ∀ v, m.mask = some v → v.length < 64)
+    (l : List (List α)) (h : Coherent Subseq.ops m l) (k : Nat) :
+    Subseq.ops.len (dropN Subseq.next k m) = .ok (some (l.length - k)) := by
+  refine (coherent_drop_of_family (o := Subseq.ops)
+    (fun m => ∀ v, m.mask = some v → v.length < 64) ?_ ?_ hn h k).2
+  · intro s v s' hs hnx
+    obtain ⟨base, mask⟩ := s
+    cases mask with
+    | none => simp [Subseq.ops, Ops.withLen, Ops.build, Subseq.next] at hnx
+    | some w =>
+      have hnx' : Subseq.next ⟨base, some w⟩ = some (v, s') := hnx
+      simp only [Subseq.next, Option.some.injEq, Prod.mk.injEq] at hnx'
+      obtain ⟨_, rfl⟩ := hnx'
+      intro v' hv'
+      simp only at hv'
+      rw [((SubseqT.inc_spec w).1 v' hv').2]
+      exact hs w rfl
+  · intro s hs
+    obtain ⟨l', h', _⟩ := subseq_coherent s hs
+    exact ⟨l', h'⟩
 
 end Noulith.C11
